@@ -557,6 +557,18 @@ fn op_spec(req: &Value) -> Value {
             s.normalize();
             scs_json(&s)
         }
+        "normalize_history" => {
+            // normalise at the type level, edit the frequency spectrum in place (every entry times `c`, through IndexMut),
+            // normalise again: the second normalisation must act although the value already has the "normalised" type
+            let c = unhex(&req["c"]);
+            let mut s1 = scs.clone().into_normalized();
+            let indices: Vec<Vec<usize>> = s1.inner().iter_indices().collect();
+            for idx in indices {
+                s1[idx.as_slice()] *= c;
+            }
+            let s2 = s1.into_normalized();
+            json!({"shape": s2.shape().0.clone(), "data": hexs(s2.inner().as_slice())})
+        }
         "stats" => stat_all(&scs),
         "write" => {
             let fmt = match req["fmt"].as_str().unwrap() {
